@@ -162,7 +162,7 @@ func runC18(c *runCtx) error {
 			}
 			usedDown = append(usedDown, dp)
 			upRef := refMain
-			if r.Intn(3) == 0 {
+			if r.Intn(3) == 0 || (i == 1 && r.Intn(2) == 0) {
 				upRef = "refs/heads/other"
 			}
 			dirs = append(dirs, tufv01.NewPropagationDirective(fmt.Sprintf("dir%d", i), "https://example.com/upstream", upRef, up, refMain, dp))
@@ -265,6 +265,9 @@ func runC18(c *runCtx) error {
 		}
 		// ---- run ----
 		reps := 1 + r.Intn(3)
+		if len(dirs) > 1 && reps == 1 {
+			reps = 2
+		}
 		obs, hobs := []string{}, []string{}
 		plainAll := true
 		upsTerms := []string{}
@@ -276,7 +279,7 @@ func runC18(c *runCtx) error {
 			return coqList(ul)
 		}
 		for k := 0; k < reps; k++ {
-			if k > 0 && r.Intn(2) == 0 { // the upstream moves on between two propagations
+			if k > 0 && r.Intn(3) != 0 { // the upstream moves on between two propagations
 				uref := []string{refMain, other}[r.Intn(2)]
 				if err := record(rsl.NewReferenceEntry(uref, cu2), upEnt{tree: u2, ref: uref}); err != nil {
 					return err
